@@ -4,6 +4,7 @@
 #include "messageq.c"
 #include "fibre.c"
 #include "util.c"
+#include <stddef.h>
 #include "vsched.h"
 #include "c06.h"
 
@@ -99,6 +100,14 @@ void c6_reset(void)
 	memset(&P, 0, sizeof(P));
 	/* prefill_aq = n: n requests for Y; 10 + n: the first of the n is for Z (the only request that fibre has) */
 	for (int i = 0; i < C6.prefill_aq % 10; i++) fibre_run_atomic(i == 0 && C6.prefill_aq >= 10 ? &fz : &fy);
+}
+/* is byte `off` of `kernel` part of what decides runnability (the queues and the current fibre) - as opposed to a field a
+ * later version may add for book-keeping? */
+int c6_kernel_sched_field(size_t off)
+{
+#define IN(f) (off >= offsetof(typeof(kernel), f) && off < offsetof(typeof(kernel), f) + sizeof(kernel.f))
+	return IN(current) || IN(state) || IN(runq) || IN(timerq) || IN(atomic_runq);
+#undef IN
 }
 void c6_register_regions(void)
 {
@@ -203,8 +212,9 @@ static void irq_action(int kind, int who)
 	switch (kind) {
 	case HK_RA_H: case HK_RA_Y: case HK_RA_Z: {
 		int f = kind == HK_RA_H ? F_H : kind == HK_RA_Y ? F_Y : F_Z;
+		orc_ra_begin(f, who);
 		bool ok = fibre_run_atomic(fib(f));
-		orc_ra(f, ok);
+		orc_ra(f, ok, who);
 		break; }
 	default: {
 		uint8_t v = kind == HK_EV1 ? 0x11 : 0x22;
